@@ -1,4 +1,502 @@
 /-
-C15 — placeholder (theorems follow)
+C15 — Hyperedge replacement is typed, fresh and order-independent.
+Theorems about `Fggs.G.replaceEdge` (FggsModel/Replace.lean), the model of fggs.derivations.replace_edge.
 -/
 import FggsModel.Replace
+import FggsProofs.Props.C16
+import Mathlib.Tactic.Linarith
+import Mathlib.Data.List.Basic
+import Mathlib.Data.List.Perm.Basic
+
+set_option linter.unusedSimpArgs false
+set_option linter.unusedVariables false
+
+namespace C15
+open Fggs Fggs.G
+
+/-! ### helper lemmas (private) -/
+
+private theorem bind_ok {α β} {x : Except Err α} {f : α → Except Err β} {b : β}
+    (h : (x >>= f) = .ok b) : ∃ a, x = .ok a ∧ f a = .ok b := by
+  cases x with
+  | error e => cases h
+  | ok a => exact ⟨a, rfl, h⟩
+
+private theorem anl_edges (g : Graph) (l : Nat) : (g.addNodeLabel l).edges = g.edges := by
+  unfold Graph.addNodeLabel; split <;> rfl
+private theorem anl_ext (g : Graph) (l : Nat) : (g.addNodeLabel l).ext = g.ext := by
+  unfold Graph.addNodeLabel; split <;> rfl
+
+private theorem addMissing_cons (g : Graph) (n : Node) (rest : List Node) :
+    Graph.addMissing g (n :: rest) =
+      if (g.nodeById n.id).isSome then Graph.addMissing g rest
+      else Graph.addMissing { (g.addNodeLabel n.label) with nodes := g.nodes ++ [n] } rest := rfl
+
+private theorem am_edges (g : Graph) (ns : List Node) : (Graph.addMissing g ns).edges = g.edges := by
+  induction ns generalizing g with
+  | nil => rfl
+  | cons n rest ih =>
+    rw [addMissing_cons]; split
+    · exact ih g
+    · rw [ih]; simp [anl_edges]
+
+private theorem am_ext (g : Graph) (ns : List Node) : (Graph.addMissing g ns).ext = g.ext := by
+  induction ns generalizing g with
+  | nil => rfl
+  | cons n rest ih =>
+    rw [addMissing_cons]; split
+    · exact ih g
+    · rw [ih]; simp [anl_ext]
+
+/-- nodes that are all present already: nothing is added -/
+private theorem am_present (g : Graph) (ns : List Node) (h : ∀ n ∈ ns, n ∈ g.nodes) :
+    Graph.addMissing g ns = g := by
+  induction ns with
+  | nil => rfl
+  | cons n rest ih =>
+    rw [addMissing_cons]
+    have hn : n ∈ g.nodes := h n (by simp)
+    have hs : (g.nodeById n.id).isSome = true := by
+      simp only [Graph.nodeById, List.find?_isSome]
+      exact ⟨n, hn, by simp⟩
+    rw [if_pos hs]
+    exact ih (fun x hx => h x (List.mem_cons_of_mem _ hx))
+
+private theorem removeEdge_ok {g g' : Graph} {e : Edge} (h : g.removeEdge e = .ok g') :
+    g'.ext = g.ext ∧ g'.nodes = g.nodes ∧ g'.edges = g.edges.filter (·.id ≠ e.id) := by
+  unfold Graph.removeEdge at h
+  split at h
+  · cases h
+  · injection h with h; subst h; exact ⟨rfl, rfl, rfl⟩
+
+private theorem addNode_ok {g g' : Graph} {n : Node} (h : g.addNode n = .ok g') :
+    g'.ext = g.ext ∧ g'.nodes = g.nodes ++ [n] ∧ g'.edges = g.edges := by
+  unfold Graph.addNode at h
+  split at h
+  · cases h
+  · injection h with h; subst h; exact ⟨anl_ext _ _, rfl, anl_edges _ _⟩
+
+private theorem addEdge_ok {g g' : Graph} {e : Edge} (h : g.addEdge e = .ok g') :
+    g'.ext = g.ext ∧ g'.edges = g.edges ++ [e] ∧ g'.nodes = (Graph.addMissing g e.nodes).nodes := by
+  unfold Graph.addEdge at h
+  split at h
+  · cases h
+  split at h
+  · cases h
+  split at h
+  · split at h
+    · injection h with h; subst h; simp [am_edges, am_ext]
+    · cases h
+  · injection h with h; subst h; simp [am_edges, am_ext]
+
+private theorem mkEdge_ok {l : ELabel} {ns : List Node} {i : Id} {e : Edge} (h : mkEdge l ns i = .ok e) :
+    e = ⟨l, ns, i⟩ ∧ l.type = ns.map (·.label) := by
+  unfold mkEdge at h
+  split at h
+  · rename_i ht; injection h with h; exact ⟨h.symm, ht⟩
+  · cases h
+
+private theorem mapM_ok {α β} (f : α → Except Err β) (q : α → Option β)
+    (hf : ∀ a b, f a = .ok b → q a = some b) :
+    ∀ (as : List α) (bs : List β), as.mapM f = .ok bs → as.map q = bs.map some := by
+  intro as
+  induction as with
+  | nil =>
+    intro bs h
+    simp only [List.mapM_nil, pure, Except.pure] at h
+    injection h with h; subst h; rfl
+  | cons a as ih =>
+    intro bs h
+    rw [List.mapM_cons] at h
+    obtain ⟨b, hb, h⟩ := bind_ok h
+    obtain ⟨bs', hbs, h⟩ := bind_ok h
+    simp only [pure, Except.pure] at h
+    injection h with h; subst h
+    simp [hf a b hb, ih bs' hbs]
+
+/-! the node map -/
+
+private theorem get_append_some (m : NodeMap) (p : Node × Node) (r x : Node) (h : m.get r = some x) :
+    NodeMap.get (m ++ [p]) r = some x := by
+  unfold NodeMap.get at h ⊢
+  rw [List.find?_append]
+  cases hf : m.find? (fun q => decide (q.1 = r)) with
+  | none => simp [hf] at h
+  | some q => simpa [hf] using h
+
+private theorem get_append_inv (m : NodeMap) (r0 gn r x : Node)
+    (h : NodeMap.get (m ++ [(r0, gn)]) r = some x) : m.get r = some x ∨ x = gn := by
+  unfold NodeMap.get at h ⊢
+  rw [List.find?_append] at h
+  cases hf : m.find? (fun q => decide (q.1 = r)) with
+  | none =>
+    right
+    simp only [hf, Option.none_or, List.find?_cons, List.find?_nil] at h
+    split at h
+    · simp at h; exact h.symm
+    · simp at h
+  | some q => left; simpa [hf] using h
+
+private theorem set_get_self (m : NodeMap) (r g : Node) : (m.set r g).get r = some g := by
+  unfold NodeMap.set NodeMap.get
+  split
+  · rename_i ha
+    rw [List.find?_map]
+    have hfun : ((fun q : Node × Node => decide (q.1 = r)) ∘ fun p => if p.1 = r then (r, g) else p)
+        = fun q : Node × Node => decide (q.1 = r) := by
+      funext p
+      by_cases hp : p.1 = r <;> simp [hp]
+    rw [hfun]
+    obtain ⟨x, hx, hxr⟩ := List.any_eq_true.1 ha
+    cases hf : m.find? (fun q => decide (q.1 = r)) with
+    | none =>
+      have := List.find?_eq_none.1 hf x hx
+      exact absurd hxr this
+    | some y =>
+      have hy : y.1 = r := by simpa using List.find?_some hf
+      simp [hy]
+  · rename_i ha
+    rw [List.find?_append]
+    have hn : m.find? (fun q => decide (q.1 = r)) = none := by
+      rw [List.find?_eq_none]
+      intro x hx hxr
+      exact ha (List.any_eq_true.2 ⟨x, hx, hxr⟩)
+    simp [hn]
+
+private theorem set_get_other (m : NodeMap) (r g r' : Node) (hne : r' ≠ r) :
+    (m.set r g).get r' = m.get r' := by
+  unfold NodeMap.set NodeMap.get
+  split
+  · rw [List.find?_map]
+    have hfun : ((fun q : Node × Node => decide (q.1 = r')) ∘ fun p => if p.1 = r then (r, g) else p)
+        = fun q : Node × Node => decide (q.1 = r') := by
+      funext p
+      by_cases hp : p.1 = r
+      · have : ¬ p.1 = r' := fun h => hne (h.symm.trans hp)
+        simp [hp, this, Ne.symm hne]
+      · simp [hp]
+    rw [hfun]
+    cases hf : m.find? (fun q => decide (q.1 = r')) with
+    | none => rfl
+    | some y =>
+      have hy : y.1 = r' := by simpa using List.find?_some hf
+      have : ¬ y.1 = r := fun h => hne (hy.symm.trans h)
+      simp [this]
+  · rw [List.find?_append]
+    have : ¬ r = r' := fun h => hne h.symm
+    simp [this]
+
+/-- the node map built from the attachment nodes and the external nodes -/
+private def initMap (gs rs : List Node) (m : NodeMap) : NodeMap :=
+  (gs.zip rs).foldl (fun (m : NodeMap) (p : Node × Node) => m.set p.2 p.1) m
+
+private theorem initMap_cons (g r : Node) (gs rs : List Node) (m : NodeMap) :
+    initMap (g :: gs) (r :: rs) m = initMap gs rs (m.set r g) := rfl
+
+private theorem initMap_other (gs rs : List Node) (m : NodeMap) (r : Node) (h : r ∉ rs) :
+    (initMap gs rs m).get r = m.get r := by
+  induction gs generalizing rs m with
+  | nil => simp [initMap]
+  | cons g gs ih =>
+    cases rs with
+    | nil => simp [initMap]
+    | cons r0 rs =>
+      rw [initMap_cons, ih rs _ (fun hm => h (List.mem_cons_of_mem _ hm))]
+      exact set_get_other m r0 g r (fun he => h (he ▸ List.mem_cons_self))
+
+private theorem initMap_get (gs rs : List Node) (m : NodeMap) (hnd : rs.Nodup)
+    (i : Nat) (hi : i < rs.length) (hi' : i < gs.length) :
+    (initMap gs rs m).get rs[i] = some gs[i] := by
+  induction gs generalizing rs m i with
+  | nil => simp at hi'
+  | cons g gs ih =>
+    cases rs with
+    | nil => simp at hi
+    | cons r0 rs =>
+      rw [initMap_cons]
+      rw [List.nodup_cons] at hnd
+      cases i with
+      | zero =>
+        simp only [List.getElem_cons_zero]
+        rw [initMap_other gs rs _ r0 hnd.1]
+        exact set_get_self m r0 g
+      | succ i =>
+        simp only [List.getElem_cons_succ]
+        exact ih rs _ hnd.2 i (by simpa using hi) (by simpa using hi')
+
+/-- every value of the initial node map is an attachment node -/
+private theorem initMap_values (gs rs : List Node) (m : NodeMap) (r x : Node)
+    (h : (initMap gs rs m).get r = some x) : m.get r = some x ∨ x ∈ gs := by
+  induction gs generalizing rs m with
+  | nil => left; simpa [initMap] using h
+  | cons g gs ih =>
+    cases rs with
+    | nil => left; simpa [initMap] using h
+    | cons r0 rs =>
+      rw [initMap_cons] at h
+      rcases ih rs _ h with h1 | h1
+      · by_cases hr : r = r0
+        · subst hr
+          rw [set_get_self] at h1
+          injection h1 with h1
+          right; rw [← h1]; exact List.mem_cons_self
+        · rw [set_get_other m r0 g r hr] at h1
+          exact Or.inl h1
+      · exact Or.inr (List.mem_cons_of_mem _ h1)
+
+/-! copying the nodes -/
+
+private theorem copyNodes_spec (ns : List Node) : ∀ (g : Graph) (m : NodeMap) (f : Nat)
+    (g' : Graph) (m' : NodeMap) (f' : Nat), copyNodes g m f ns = .ok (g', m', f') →
+    g'.ext = g.ext ∧ g'.edges = g.edges ∧
+    (∃ new, g'.nodes = g.nodes ++ new ∧ (∀ n ∈ new, ∃ k, f ≤ k ∧ n.id = .impl k) ∧
+      (∀ r x, m'.get r = some x → m.get r = some x ∨ x ∈ new)) ∧
+    (graphInv g = true → graphInv g' = true) ∧
+    (∀ r x, m.get r = some x → m'.get r = some x) := by
+  induction ns with
+  | nil =>
+    intro g m f g' m' f' h
+    simp only [copyNodes] at h
+    injection h with h
+    injection h with h1 h2
+    injection h2 with h2 h3
+    subst h1; subst h2
+    exact ⟨rfl, rfl, ⟨[], by simp, by simp, fun r x hx => Or.inl hx⟩, id, fun r x hx => hx⟩
+  | cons r0 rest ih =>
+    intro g m f g' m' f' h
+    simp only [copyNodes] at h
+    split at h
+    · exact ih g m f g' m' f' h
+    · obtain ⟨g1, hg1, h⟩ := bind_ok h
+      obtain ⟨e1, e2, ⟨new, e3, e4, e5⟩, e6, e7⟩ := ih _ _ _ _ _ _ h
+      obtain ⟨a1, a2, a3⟩ := addNode_ok hg1
+      refine ⟨e1.trans a1, e2.trans a3, ⟨⟨r0.label, .impl f⟩ :: new, ?_, ?_, ?_⟩, ?_, ?_⟩
+      · rw [e3, a2]; simp
+      · intro n hn
+        rcases List.mem_cons.1 hn with rfl | hn
+        · exact ⟨f, le_refl _, rfl⟩
+        · obtain ⟨k, hk, hk'⟩ := e4 n hn
+          exact ⟨k, by omega, hk'⟩
+      · intro r x hx
+        rcases e5 r x hx with h1 | h1
+        · rcases get_append_inv m r0 _ r x h1 with h2 | h2
+          · exact Or.inl h2
+          · right; rw [h2]; exact List.mem_cons_self
+        · exact Or.inr (List.mem_cons_of_mem _ h1)
+      · intro hi
+        exact e6 (C16.addNode_inv g g1 _ hi hg1)
+      · intro r x hx
+        exact e7 r x (get_append_some m _ r x hx)
+
+/-! copying the edges -/
+
+private theorem copyEdges_spec (m : NodeMap) (es : List Edge) : ∀ (g : Graph) (em : List (Edge × Edge))
+    (f : Nat) (g' : Graph) (em' : List (Edge × Edge)) (f' : Nat),
+    copyEdges g m em f es = .ok (g', em', f') →
+    g'.ext = g.ext ∧
+    (∃ new : List (Edge × Edge), em' = em ++ new ∧ g'.edges = g.edges ++ new.map (·.2) ∧
+      new.map (·.1) = es ∧
+      ∀ p ∈ new, p.2.label = p.1.label ∧ p.1.nodes.map (fun n => m.get n) = p.2.nodes.map some) ∧
+    (graphInv g = true → graphInv g' = true) ∧
+    ((∀ r x, m.get r = some x → x ∈ g.nodes) → g'.nodes = g.nodes) := by
+  induction es with
+  | nil =>
+    intro g em f g' em' f' h
+    simp only [copyEdges] at h
+    injection h with h
+    injection h with h1 h2
+    injection h2 with h2 h3
+    subst h1; subst h2
+    exact ⟨rfl, ⟨[], by simp, by simp, rfl, by simp⟩, id, fun _ => rfl⟩
+  | cons r0 rest ih =>
+    intro g em f g' em' f' h
+    simp only [copyEdges] at h
+    obtain ⟨gnodes, hgn, h⟩ := bind_ok h
+    obtain ⟨ge, hge, h⟩ := bind_ok h
+    obtain ⟨g1, hg1, h⟩ := bind_ok h
+    have hmap : r0.nodes.map (fun n => m.get n) = gnodes.map some := by
+      refine mapM_ok _ (fun n => m.get n) ?_ r0.nodes gnodes hgn
+      intro a b hab
+      split at hab
+      · rename_i x hx; injection hab with hab; rw [hx, hab]
+      · cases hab
+    obtain ⟨hge1, hty⟩ := mkEdge_ok hge
+    subst hge1
+    obtain ⟨a1, a2, a3⟩ := addEdge_ok hg1
+    obtain ⟨e1, ⟨new, e2, e3, e4, e5⟩, e6, e7⟩ := ih _ _ _ _ _ _ h
+    refine ⟨e1.trans a1, ⟨(r0, ⟨r0.label, gnodes, .impl f⟩) :: new, ?_, ?_, ?_, ?_⟩, ?_, ?_⟩
+    · rw [e2]; simp
+    · rw [e3, a2]; simp
+    · simp [e4]
+    · intro p hp
+      rcases List.mem_cons.1 hp with rfl | hp
+      · exact ⟨rfl, hmap⟩
+      · exact e5 p hp
+    · intro hi
+      exact e6 (C16.addEdge_inv g g1 _ hi hty hg1)
+    · intro hm
+      have hall : ∀ x ∈ gnodes, x ∈ g.nodes := by
+        intro x hx
+        have : some x ∈ gnodes.map some := List.mem_map_of_mem hx
+        rw [← hmap] at this
+        obtain ⟨n, _, hn⟩ := List.mem_map.1 this
+        exact hm n x hn
+      have hg1n : g1.nodes = g.nodes := by rw [a3, am_present g _ hall]
+      rw [e7 (by rw [hg1n]; exact hm), hg1n]
+
+/-! the call as a whole -/
+
+private theorem replaceEdge_ok {fresh : Nat} {g : Graph} {e : Edge} {repl : Graph} {r : ReplaceResult}
+    (h : replaceEdge fresh g e repl = .ok r) :
+    ∃ g0 g1 m1 f1 g2 em f2, e.label.type = repl.type ∧ g.removeEdge e = .ok g0 ∧
+      copyNodes g0 (initMap e.nodes repl.ext []) fresh repl.nodes = .ok (g1, m1, f1) ∧
+      copyEdges g1 m1 [] f1 repl.edges = .ok (g2, em, f2) ∧ r = ⟨g2, m1, em, f2⟩ := by
+  unfold replaceEdge at h
+  split at h
+  · cases h
+  · rename_i ht
+    obtain ⟨g0, h0, h⟩ := bind_ok h
+    obtain ⟨⟨g1, m1, f1⟩, h1, h⟩ := bind_ok h
+    obtain ⟨⟨g2, em, f2⟩, h2, h⟩ := bind_ok h
+    simp only [pure, Except.pure] at h
+    injection h with h
+    exact ⟨g0, g1, m1, f1, g2, em, f2, by simpa using ht, h0, h1, h2, h.symm⟩
+
+/-! ### the property theorems -/
+
+/-- a replacement of the wrong type is rejected with ValueError (and, the model being functional, the graph is untouched) -/
+theorem replaceEdge_wrong_type (fresh : Nat) (g : Graph) (e : Edge) (repl : Graph)
+    (h : e.label.type ≠ repl.type) : replaceEdge fresh g e repl = .error .valueError := by
+  unfold replaceEdge
+  rw [if_pos h]
+
+/-- the host graph's external nodes are left untouched -/
+theorem replaceEdge_ext (fresh : Nat) (g : Graph) (e : Edge) (repl : Graph) (r : ReplaceResult)
+    (h : replaceEdge fresh g e repl = .ok r) : r.graph.ext = g.ext := by
+  obtain ⟨g0, g1, m1, f1, g2, em, f2, _, h0, h1, h2, rfl⟩ := replaceEdge_ok h
+  obtain ⟨a1, _, _⟩ := removeEdge_ok h0
+  obtain ⟨b1, _⟩ := copyNodes_spec _ _ _ _ _ _ _ h1
+  obtain ⟨c1, _⟩ := copyEdges_spec _ _ _ _ _ _ _ _ h2
+  exact c1.trans (b1.trans a1)
+
+/-- exactly the replaced edge is removed, every other edge stays in place (in order), and the copies of
+the replacement's edges are appended in order: one per edge, same label, attachment nodes mapped through
+the node map in order -/
+theorem replaceEdge_edges (fresh : Nat) (g : Graph) (e : Edge) (repl : Graph) (r : ReplaceResult)
+    (h : replaceEdge fresh g e repl = .ok r) :
+    r.graph.edges = g.edges.filter (·.id ≠ e.id) ++ r.edgeMap.map (·.2) ∧
+    r.edgeMap.map (·.1) = repl.edges ∧
+    ∀ p ∈ r.edgeMap, p.2.label = p.1.label ∧ p.1.nodes.map (fun n => r.nodeMap.get n) = p.2.nodes.map some := by
+  obtain ⟨g0, g1, m1, f1, g2, em, f2, _, h0, h1, h2, rfl⟩ := replaceEdge_ok h
+  obtain ⟨_, _, a3⟩ := removeEdge_ok h0
+  obtain ⟨_, b2, _⟩ := copyNodes_spec _ _ _ _ _ _ _ h1
+  obtain ⟨_, ⟨new, c1, c2, c3, c4⟩, _⟩ := copyEdges_spec _ _ _ _ _ _ _ _ h2
+  simp only [List.nil_append] at c1
+  subst c1
+  exact ⟨by rw [c2, b2, a3], c3, c4⟩
+
+/- The original statement
+
+    theorem replaceEdge_nodes_prefix (fresh : Nat) (g : Graph) (e : Edge) (repl : Graph) (r : ReplaceResult)
+        (h : replaceEdge fresh g e repl = .ok r) : ∃ new, r.graph.nodes = g.nodes ++ new ∧
+          ∀ n ∈ new, ∃ k, fresh ≤ k ∧ n.id = .impl k
+
+is false of the model: `removeEdge` only looks at the *id* of `e`, so `e` may carry attachment nodes
+that are not nodes of `g`; `add_edge` on a copied edge then inserts them (explicit ids and all).
+Falsifying input (see `replaceEdge_nodes_prefix_counterexample`): host with node a = (0, e0) and edge
+X(a) with id e5; `e` = X(b) with id e5 where b = (0, e1); replacement with node v, ext [v] and edge Y(v):
+the result has nodes [a, b].  The statement holds when `e`'s attachment nodes are nodes of the host
+(hypothesis `hatt`), which is the case whenever the host is well formed and `e` is one of its edges. -/
+
+/-- pre-existing nodes are untouched and stay first; only nodes are appended — provided the
+attachment nodes of `e` are nodes of the host -/
+theorem replaceEdge_nodes_prefix_partial (fresh : Nat) (g : Graph) (e : Edge) (repl : Graph) (r : ReplaceResult)
+    (hatt : ∀ n ∈ e.nodes, n ∈ g.nodes)
+    (h : replaceEdge fresh g e repl = .ok r) : ∃ new, r.graph.nodes = g.nodes ++ new ∧
+      ∀ n ∈ new, ∃ k, fresh ≤ k ∧ n.id = .impl k := by
+  obtain ⟨g0, g1, m1, f1, g2, em, f2, _, h0, h1, h2, rfl⟩ := replaceEdge_ok h
+  obtain ⟨_, a2, _⟩ := removeEdge_ok h0
+  obtain ⟨_, _, ⟨new, b1, b2, b3⟩, _⟩ := copyNodes_spec _ _ _ _ _ _ _ h1
+  obtain ⟨_, _, _, c4⟩ := copyEdges_spec _ _ _ _ _ _ _ _ h2
+  refine ⟨new, ?_, b2⟩
+  show g2.nodes = g.nodes ++ new
+  rw [c4, b1, a2]
+  intro r x hx
+  rw [b1, a2]
+  rcases b3 r x hx with h3 | h3
+  · rcases initMap_values _ _ _ r x h3 with h4 | h4
+    · simp [NodeMap.get] at h4
+    · exact List.mem_append_left _ (hatt x h4)
+  · exact List.mem_append_right _ h3
+
+/-- the hypothesis `hatt` holds for an edge of a well-formed host -/
+theorem replaceEdge_nodes_prefix_of_inv (fresh : Nat) (g : Graph) (e : Edge) (repl : Graph) (r : ReplaceResult)
+    (hg : graphInv g = true) (he : e ∈ g.edges)
+    (h : replaceEdge fresh g e repl = .ok r) : ∃ new, r.graph.nodes = g.nodes ++ new ∧
+      ∀ n ∈ new, ∃ k, fresh ≤ k ∧ n.id = .impl k := by
+  refine replaceEdge_nodes_prefix_partial fresh g e repl r ?_ h
+  intro n hn
+  simp only [graphInv, Bool.and_eq_true, List.all_eq_true, List.contains_iff_mem] at hg
+  exact hg.1.1.1.1.1.1.1 e he n hn
+
+/-- the unrestricted `replaceEdge_nodes_prefix` is false: an `e` that shares only its id with an edge
+of the (well-formed) host smuggles in its own attachment node, which has an explicit id -/
+theorem replaceEdge_nodes_prefix_counterexample :
+    ∃ (g : Graph) (e : Edge) (repl : Graph) (r : ReplaceResult),
+      graphInv g = true ∧ graphInv repl = true ∧ replaceEdge 1000 g e repl = .ok r ∧
+      ¬ ∃ new, r.graph.nodes = g.nodes ++ new ∧ ∀ n ∈ new, ∃ k, 1000 ≤ k ∧ n.id = .impl k := by
+  refine ⟨⟨[⟨0, .expl 0⟩], [⟨⟨0, [0], false⟩, [⟨0, .expl 0⟩], .expl 5⟩], [], [0], [⟨0, [0], false⟩]⟩,
+    ⟨⟨0, [0], false⟩, [⟨0, .expl 1⟩], .expl 5⟩,
+    ⟨[⟨0, .expl 9⟩], [⟨⟨1, [0], true⟩, [⟨0, .expl 9⟩], .expl 7⟩], [⟨0, .expl 9⟩], [0], [⟨1, [0], true⟩]⟩,
+    ⟨⟨[⟨0, .expl 0⟩, ⟨0, .expl 1⟩], [⟨⟨1, [0], true⟩, [⟨0, .expl 1⟩], .impl 1000⟩], [], [0],
+        [⟨0, [0], false⟩, ⟨1, [0], true⟩]⟩,
+      [(⟨0, .expl 9⟩, ⟨0, .expl 1⟩)],
+      [(⟨⟨1, [0], true⟩, [⟨0, .expl 9⟩], .expl 7⟩, ⟨⟨1, [0], true⟩, [⟨0, .expl 1⟩], .impl 1000⟩)], 1001⟩,
+    by decide, by decide, by rfl, ?_⟩
+  rintro ⟨new, h1, h2⟩
+  have h1' : [(⟨0, .expl 0⟩ : Node), ⟨0, .expl 1⟩] = [⟨0, .expl 0⟩] ++ new := h1
+  have hnew : new = [⟨0, .expl 1⟩] := by
+    simp only [List.singleton_append, List.cons.injEq, true_and] at h1'
+    exact h1'.symm
+  subst hnew
+  obtain ⟨k, _, hk⟩ := h2 _ List.mem_cons_self
+  cases hk
+
+/-- the replacement's external nodes are identified with the edge's attachment nodes in order —
+when the replacement lists no external node twice -/
+theorem replaceEdge_ext_identified (fresh : Nat) (g : Graph) (e : Edge) (repl : Graph) (r : ReplaceResult)
+    (h : replaceEdge fresh g e repl = .ok r) (hnd : repl.ext.Nodup)
+    (i : Nat) (hi : i < repl.ext.length) (hi' : i < e.nodes.length) :
+    r.nodeMap.get repl.ext[i] = some e.nodes[i] := by
+  obtain ⟨g0, g1, m1, f1, g2, em, f2, _, h0, h1, h2, rfl⟩ := replaceEdge_ok h
+  obtain ⟨_, _, _, _, b5⟩ := copyNodes_spec _ _ _ _ _ _ _ h1
+  exact b5 _ _ (initMap_get e.nodes repl.ext [] hnd i hi hi')
+
+/-- D14 (known finding, open): with a repeated external node only the *last* attachment node is
+identified; the full-strength clause (without `Nodup`) is false of the model, as of the code. -/
+theorem replaceEdge_repeated_ext_counterexample :
+    ∃ (g : Graph) (e : Edge) (repl : Graph) (r : ReplaceResult),
+      replaceEdge 1000 g e repl = .ok r ∧ r.nodeMap.get repl.ext[0]! ≠ some e.nodes[0]! := by
+  refine ⟨⟨[⟨0, .expl 0⟩, ⟨0, .expl 1⟩],
+      [⟨⟨0, [0, 0], false⟩, [⟨0, .expl 0⟩, ⟨0, .expl 1⟩], .expl 5⟩], [], [0], [⟨0, [0, 0], false⟩]⟩,
+    ⟨⟨0, [0, 0], false⟩, [⟨0, .expl 0⟩, ⟨0, .expl 1⟩], .expl 5⟩,
+    ⟨[⟨0, .expl 9⟩], [], [⟨0, .expl 9⟩, ⟨0, .expl 9⟩], [0], []⟩,
+    ⟨⟨[⟨0, .expl 0⟩, ⟨0, .expl 1⟩], [], [], [0], [⟨0, [0, 0], false⟩]⟩,
+      [(⟨0, .expl 9⟩, ⟨0, .expl 1⟩)], [], 1000⟩,
+    by rfl, by decide⟩
+
+/-- well-formedness is preserved: if host and replacement are well formed and `fresh` lies above every
+implicit id in the host, the result is well formed (uses the C16 invariant lemmas).  The freshness
+hypotheses are not needed: a colliding id makes `add_node`/`add_edge` raise, so the call does not
+succeed. -/
+theorem replaceEdge_inv (fresh : Nat) (g : Graph) (e : Edge) (repl : Graph) (r : ReplaceResult)
+    (hg : graphInv g = true)
+    (hfresh : ∀ n ∈ g.nodes, ∀ k, n.id = .impl k → k < fresh)
+    (hfresh' : ∀ x ∈ g.edges, ∀ k, x.id = .impl k → k < fresh)
+    (h : replaceEdge fresh g e repl = .ok r) : graphInv r.graph = true := by
+  obtain ⟨g0, g1, m1, f1, g2, em, f2, _, h0, h1, h2, rfl⟩ := replaceEdge_ok h
+  obtain ⟨_, _, _, b4, _⟩ := copyNodes_spec _ _ _ _ _ _ _ h1
+  obtain ⟨_, _, c3, _⟩ := copyEdges_spec _ _ _ _ _ _ _ _ h2
+  exact c3 (b4 (C16.removeEdge_inv g g0 e hg h0))
+
+end C15
